@@ -174,6 +174,55 @@ pub fn code_has_const_path_into_atom(code: &V) -> bool {
     }
 }
 
+/// (a CODE (q . 64)) with CODE not a path: code applied to the quoted atom 64 where the
+/// environment reference @ (byte 0x40) belongs
+pub fn code_applies_code_to_quoted_64(code: &V) -> bool {
+    fn quoted_atom(v: &V) -> Option<&Vec<u8>> {
+        match v {
+            V::P(h, t) => match (&**h, &**t) {
+                (V::A(q), V::A(b)) if q == &[1u8] => Some(b),
+                _ => None,
+            },
+            _ => None,
+        }
+    }
+    match code {
+        V::A(_) => false,
+        V::P(h, t) => {
+            if let (V::A(op), V::P(a1, rest)) = (&**h, &**t) {
+                if op == &[2u8] {
+                    if let V::P(a2, end) = &**rest {
+                        if end.is_nil() && quoted_atom(a2) == Some(&vec![64u8]) && matches!(&**a1, V::P(_, _)) && quoted_atom(a1).is_none() {
+                            return true;
+                        }
+                    }
+                }
+            }
+            code_applies_code_to_quoted_64(h) || code_applies_code_to_quoted_64(t)
+        }
+    }
+}
+
+/// is the build's output a function of the fresh-name counter (same code twice at one counter
+/// value, different code at another)?
+pub fn build_depends_on_the_counter(src: &str, sigil: &str, mo: ModernOpts) -> bool {
+    let at = |n: usize| {
+        chialisp::compiler::gensym::ARGNAME_CTR.store(n, std::sync::atomic::Ordering::SeqCst);
+        sut::compile_modern(src, sigil, mo, "*verif*.clsp", &[]).ok().map(|c| c.code.ser())
+    };
+    let (a1, a2) = (at(5000), at(5000));
+    if a1.is_none() || a1 != a2 {
+        return false;
+    }
+    for n in [777_777usize, 0, 50, 950, 99_990, 999_990, 100, 31, 123_456] {
+        let b1 = at(n);
+        if b1.is_some() && a1 != b1 {
+            return true;
+        }
+    }
+    false
+}
+
 pub fn known_for_build(v: &Viol) -> Option<&'static str> {
     let d = v.case.get("dialect")?.as_str()?;
     let opts = v.case.get("options").and_then(|o| o.as_str()).unwrap_or("");
@@ -191,6 +240,21 @@ pub fn known_for_build(v: &Viol) -> Option<&'static str> {
     // dialect, through defconst evaluation
     if (d == "cl22" || opts.contains("fe=1") || src.contains("(defconst ")) && code_has_gensym_atom(&code) {
         return Some("evaluator-com-leaks-let-bound-names");
+    }
+    // ... also when the leaked name was used as a *path* or computed with, which hides its
+    // spelling: then the visible fact is that the code is a function of the fresh-name counter
+    if (d == "cl22" || opts.contains("fe=1") || src.contains("(defconst ")) && (v.sig.starts_with("compiled-fails") || v.sig.starts_with("wrong-value")) {
+        if let Some(dl) = Dialect::parse(d) {
+            let mo = ModernOpts { optimize: opts.contains("opt=1"), frontend_opt: opts.contains("fe=1"), post_opt: opts.contains("post=1") };
+            if build_depends_on_the_counter(src, dl.sigil(), mo) {
+                return Some("evaluator-com-leaks-let-bound-names");
+            }
+        }
+    }
+    // cl21: a let/assign binding whose value is the byte 0x40 (written 0x40 or "@") under an if
+    // makes the if macro's environment reference @ come out as the constant 64
+    if d == "cl21" && (src.contains(" 0x40)") || src.contains(" 0x40 ") || src.contains("\"@\"")) && src.contains("(if ") && code_applies_code_to_quoted_64(&code) {
+        return Some("cl21-binding-of-byte-0x40-turns-the-if-macros-environment-into-64");
     }
     if (d == "cl23" || d == "cl23.1" || d == "cl24" || d == "strict-cl21") && opts.contains("opt=1") && code_has_const_path_into_atom(&code) {
         return Some("cl23-constant-folds-path-into-atom");
